@@ -147,20 +147,25 @@ def run(c, facts, tier):
                 c.ob("C10.one-index", site, "name, tag and table entry are the same index [%s]" % (p.cond or "")[:40], ok1, det)
         # inverse table
         pk = codegen.mgr_key(facts, framed, "printer_map")
-        pfn = facts.fn(pk)
-        t = rx.tail_expr(pfn.body)
-        oki = False
-        if t is not None:
-            clos = find_all(t, lambda n: n.get("k") == "closure")
-            base, chain = rx.method_chain(rx.peel(t["args"][0]) if t["k"] == "call" and t["args"] else t)
-            ms = [m for m, _, _ in chain]
-            if len(clos) == 1 and ms[:1] in (["iter"], ["into_iter"]) and "map" in ms and ms[-1] == "collect" and not set(ms) - {"iter", "into_iter", "map", "collect", "clone"}:
-                pr = rx.closure_params(clos[0])[0]
-                bd = rx.closure_body(clos[0])
-                if pr["k"] == "tuple" and len(pr["elems"]) == 2 and bd["k"] == "tuple" and len(bd["elems"]) == 2:
-                    kname, vname = [rx.pat_bindings(x)[0] for x in pr["elems"]]
-                    oki = rx.is_var(bd["elems"][0], vname) and rx.is_var(bd["elems"][1], kname) and base["k"] == "field" and base["name"] == "printers"
-        c.ob("C10.choice", pk, "the table is the inverse of the printer registry (tag → target)", oki, "printer_map = Some(printers.iter().map(|(k,v)| (*v, k.clone())).collect())")
+        # the table returned is the printer registry turned around: one entry (index, destination) per registered printer,
+        # whatever the spelling (iterator chain collected into a map, or a loop inserting into a fresh map)
+        oki, seen_tbl = False, []
+        for st_, v_ in codegen.run(facts, pk, codegen.AFF()):
+            x_ = v_.get("x") if isinstance(v_, dict) and v_.get("v") == "some" else None
+            if st_.unknown:
+                seen_tbl.append("not modelled: %s" % st_.unknown[:2])
+                continue
+            if not (isinstance(x_, dict) and x_.get("v") == "mapped" and emit.canon(x_.get("of")) == "self.printers" and len(x_["elems"]) == 1 and not x_["elems"][0][0]):
+                seen_tbl.append(emit.canon(v_)[:80] if isinstance(v_, dict) else str(v_))
+                continue
+            el = x_["elems"][0][1]
+            if isinstance(el, dict) and el.get("v") == "tuple" and len(el["xs"]) == 2:
+                a_, b2 = [emit.canon(q) for q in el["xs"]]
+                seen_tbl.append("(%s, %s)" % (a_, b2))
+                oki = a_.endswith(".1") and b2.endswith(".0") and a_[:-2] == b2[:-2] and not x_.get("adaptors")
+            else:
+                seen_tbl.append(emit.canon(el)[:80] if isinstance(el, dict) else str(el))
+        c.ob("C10.choice", pk, "the table is the inverse of the printer registry (tag → target)", oki, "per registered printer (key, index) the table gets the entry %s; required (index, key)" % seen_tbl)
     # C10.all-framed
     arows = codegen.expand(codegen.table(facts, "<Action as TargetScheme>::compile"))
     nact = 0
